@@ -23,6 +23,7 @@ import (
 	"sort"
 	"strings"
 	"testing"
+	"time"
 
 	"github.com/ChainSafe/gossamer/internal/database"
 	"github.com/ChainSafe/gossamer/internal/primitives/core/hash"
@@ -638,7 +639,7 @@ func c06Bucket(n int) int {
 func TestVerif_C06(t *testing.T) {
 	r := verifmc.NewReport("C06", "triedb", "model_checking")
 	defer r.Write()
-	r.Rule = "BFS over put/delete/commit/reopen histories on the real TrieDB (V0 and V1) over a map-backed database with real (buffered) batches; alphabets: short (9 colliding keys x values of 0,1,31,32,33 bytes), mid (6 keys x 1,32,33 bytes, one level deeper), long (15 keys with 62..66 / 318..322 nibble partial keys x 1,33 bytes); states deduplicated on the dump of the private node structure, deathRow, database and model; in every state Hash() (commit) is compared with the independent spec root, Hash() is repeated, and a fresh TrieDB opened at the root must Get the model value for every alphabet key and nil for absent keys and probes"
+	r.Rule = "BFS over put/delete/commit/reopen histories on the real TrieDB (V0 and V1) over a map-backed database with real (buffered) batches; alphabets: short (9 colliding keys x values of 0,1,31,32,33 bytes), mid (6 keys x 1,29,30,32,33 bytes - child encodings of exactly 32 bytes - one level deeper), long (15 keys with 62..66 / 318..322 nibble partial keys x 1,33 bytes); states deduplicated on the dump of the private node structure, deathRow, database and model; in every state Hash() (commit) is compared with the independent spec root, Hash() is repeated, and a fresh TrieDB opened at the root must Get the model value for every alphabet key and nil for absent keys and probes"
 	r.Assumption("the database always serves the empty node under the hash of the empty node (as the package's NewMemoryDB(EmptyNode) helper does); an empty TrieDB over a database without it fails with 'incomplete database' and that precondition is not counted as a finding")
 	r.Assumption("database.Batch semantics: writes are buffered and applied in order by Flush, dropped by Close")
 	// sanity of the reference against constants that do not come from the code under test
@@ -654,16 +655,28 @@ func TestVerif_C06(t *testing.T) {
 		}
 	}
 	shortVals := [][]byte{{}, {0x01}, c06Val(0x31, 31), c06Val(0x32, 32), c06Val(0x33, 33)}
-	midVals := [][]byte{{0x01}, c06Val(0x32, 32), c06Val(0x33, 33)}
+	// 29/30 bytes: a leaf child with a one-byte / empty partial key then encodes to exactly 32 bytes
+	// (the inline-child threshold); 32/33: the hashed-value threshold
+	midVals := [][]byte{{0x01}, c06Val(0x29, 29), c06Val(0x30, 30), c06Val(0x32, 32), c06Val(0x33, 33)}
 	longVals := [][]byte{{0x01}, c06Val(0x33, 33)}
 	dShort := verifmc.Pick(3, 4)
 	dMid := verifmc.Pick(4, 5)
 	dLong := verifmc.Pick(3, 4)
+	timing := map[string]string{}
 	for _, ver := range []trie.TrieLayout{trie.V0, trie.V1} {
-		c06Explore(r, "short", ver, shortVals, dShort)
-		c06Explore(r, "mid", ver, midVals, dMid)
-		c06Explore(r, "long", ver, longVals, dLong)
+		for _, e := range []struct {
+			family string
+			vals   [][]byte
+			depth  int
+		}{{"short", shortVals, dShort}, {"mid", midVals, dMid}, {"long", longVals, dLong}} {
+			t0 := time.Now()
+			c06Explore(r, e.family, ver, e.vals, e.depth)
+			timing[fmt.Sprintf("%s-v%d", e.family, c06Ver(ver))] = fmt.Sprintf("depth %v done, new states per depth %v, %.1fs", r.Extra["completed_depth"], r.Extra["new_states_per_depth"], time.Since(t0).Seconds())
+		}
 	}
+	r.Extra["explorations"] = timing
+	delete(r.Extra, "completed_depth")
+	delete(r.Extra, "new_states_per_depth")
 	r.Extra["depth_short"] = dShort
 	r.Extra["depth_mid"] = dMid
 	r.Extra["depth_long"] = dLong
